@@ -139,6 +139,18 @@ func (a *arrM) MarshalZerologArray(arr *zerolog.Array) { ApplyArray(arr, a.l) }
 type unmarshalable struct{ C chan int }
 
 // badMarshal fails to marshal with an error text of the generator's choosing (any bytes).
+// indentMarshal renders itself as indented, multi-line JSON (what json.MarshalIndent gives a type that
+// wants to look nice in files): whatever marshals it for an event has to compact that.
+type indentMarshal struct {
+	A string
+	N int64
+}
+
+func (m indentMarshal) MarshalJSON() ([]byte, error) {
+	b, err := json.MarshalIndent(map[string]interface{}{"a": m.A, "n": m.N, "l": []interface{}{1, "two", nil}}, "", "  ")
+	return append(append([]byte("\n "), b...), "\n\t"...), err
+}
+
 type badMarshal struct{ msg string }
 
 func (b badMarshal) MarshalJSON() ([]byte, error) { return nil, errors.New(b.msg) }
@@ -182,6 +194,8 @@ func (i *Iface) Go() interface{} {
 		return jstruct{A: string(i.S), N: i.I, F: math.Float64frombits(i.F)}
 	case "rawmsg":
 		return json.RawMessage(i.S)
+	case "indentmarshal":
+		return indentMarshal{A: string(i.S), N: i.I}
 	case "unmarshalable":
 		return unmarshalable{}
 	case "badmarshal":
